@@ -1,6 +1,7 @@
 package main
 
 import (
+	"errors"
 	"fmt"
 	"os"
 	"path/filepath"
@@ -10,6 +11,7 @@ import (
 
 	casbin "github.com/casbin/casbin/v2"
 	"github.com/casbin/casbin/v2/model"
+	"github.com/casbin/casbin/v2/persist"
 	fileadapter "github.com/casbin/casbin/v2/persist/file-adapter"
 	stringadapter "github.com/casbin/casbin/v2/persist/string-adapter"
 )
@@ -596,6 +598,87 @@ func (u *c18Universe) randFile(c *Ctx, maxLines int, messy bool) string {
 	return strings.Join(ls, "\n")
 }
 
+// A filtered adapter that is NOT the bundled file adapter (a database-style store implementing
+// persist.FilteredAdapter without a save guard of its own): the ENFORCER's guard has to refuse
+// SavePolicy while a partial view is loaded, whatever the adapter's concrete type.
+type c18DBStore struct {
+	rules    [][]string // ptype + fields
+	filtered bool
+	saves    int
+}
+
+func (a *c18DBStore) LoadPolicy(m model.Model) error {
+	a.filtered = false
+	for _, r := range a.rules {
+		if err := persist.LoadPolicyArray(append([]string(nil), r...), m); err != nil {
+			return err
+		}
+	}
+	return nil
+}
+func (a *c18DBStore) LoadFilteredPolicy(m model.Model, filter interface{}) error {
+	sub, _ := filter.(string)
+	a.filtered = true
+	for _, r := range a.rules {
+		if len(r) > 1 && r[1] == sub {
+			if err := persist.LoadPolicyArray(append([]string(nil), r...), m); err != nil {
+				return err
+			}
+		}
+	}
+	return nil
+}
+func (a *c18DBStore) IsFiltered() bool { return a.filtered }
+func (a *c18DBStore) SavePolicy(m model.Model) error {
+	a.saves++
+	a.rules = nil
+	for _, sec := range []string{"p", "g"} {
+		for pt, ast := range m[sec] {
+			for _, r := range ast.Policy {
+				a.rules = append(a.rules, append([]string{pt}, r...))
+			}
+		}
+	}
+	return nil
+}
+func (a *c18DBStore) AddPolicy(sec, pt string, rule []string) error    { return errors.New("not implemented") }
+func (a *c18DBStore) RemovePolicy(sec, pt string, rule []string) error { return errors.New("not implemented") }
+func (a *c18DBStore) RemoveFilteredPolicy(sec, pt string, fi int, fv ...string) error {
+	return errors.New("not implemented")
+}
+
+func c18ThirdPartyStore(c *Ctx) {
+	for i, sub := range []string{"alice", "admin", "nobody"} {
+		st := &c18DBStore{rules: [][]string{{"p", "alice", "data1", "read"}, {"p", "admin", "data2", "write"}, {"g", "alice", "admin"}, {"p", "bob", "data2", "read"}}}
+		mm, _ := model.NewModelFromString(c18ModelText("flat"))
+		e, err := casbin.NewEnforcer(mm)
+		if err != nil {
+			panic(err)
+		}
+		e.SetAdapter(st)
+		id := fmt.Sprintf("c18.dbstore.%d", i)
+		if err := e.LoadFilteredPolicy(sub); err != nil {
+			c.Direct(id, "LoadFilteredPolicy failed on a third-party filtered adapter", sub)
+			continue
+		}
+		if !e.IsFiltered() {
+			c.Direct(id, "a filtered view is loaded through a persist.FilteredAdapter but Enforcer.IsFiltered() is false", sub)
+		}
+		before := len(st.rules)
+		if err := e.SavePolicy(); err == nil || st.saves != 0 || len(st.rules) != before {
+			c.Direct(id, "SavePolicy was not refused while a partial view is loaded (third-party filtered adapter): the store would be overwritten with the subset",
+				fmt.Sprintf("filter=%s err=%v adapter.SavePolicy calls=%d store %d -> %d rules", sub, err, st.saves, before, len(st.rules)))
+		}
+		// after a full load the view is complete again and saving is allowed
+		if err := e.LoadPolicy(); err != nil || e.IsFiltered() {
+			c.Direct(id, "a full LoadPolicy did not end the filtered state", sub)
+		} else if err := e.SavePolicy(); err != nil || st.saves != 1 || len(st.rules) != before {
+			c.Direct(id, "SavePolicy after a full load failed or changed the store", fmt.Sprintf("err=%v saves=%d rules=%d", err, st.saves, len(st.rules)))
+		}
+		c.Count("third-party-filtered-adapter")
+	}
+}
+
 // ordering models (subjectPriority, priority): whatever sequence of filtered / incremental loads
 // produced the view, the rule ORDER and the decisions must be those of a plain load of exactly
 // the lines in view (same file order).  Implementation-only predicate (Filter.v has no sort).
@@ -762,6 +845,7 @@ func init() {
 		}
 		v := &c18Env{c: c, dir: dir, path: filepath.Join(dir, "policy.csv")}
 		c18Ordering(c, dir)
+		c18ThirdPartyStore(c)
 		flat, flat2, dom := c18Flat(), c18Flat2(), c18Dom()
 		n := 0
 		id := func(tag string) string { n++; return fmt.Sprintf("c18.%s.%d", tag, n) }
